@@ -118,7 +118,7 @@ int main(int argc, char **argv)
             fsg->start_state = atoi(w[2]);
             fsg->final_state = atoi(w[3]);
             free(name);
-            printf("ok\n");
+            printf("ok %d\n", logmath_get_zero(lmath));
         } else if (n == 2 && !strcmp(w[0], "word")) {
             char *s = unhex(w[1]);
             printf("v %d\n", fsg_model_word_add(fsg, s));
